@@ -88,6 +88,8 @@ def one(P, std, payload):
         key = "fixed-not-detected"
         if re.search(r"^ {1,4}!", text, re.M):
             key = "fixed-not-detected:bang-comment-in-columns-2-5"
+        elif re.search(r"&[ ]*$", text, re.M):
+            key = "fixed-not-detected:line-ends-in-ampersand"
         return viol(key, "fixed-form rendering detected as %s" % rd.format.mode), text
     ref = parse_monitored(P.canonical(), std, conserve=False)
     if ref.error is not None:
@@ -123,7 +125,29 @@ def one(P, std, payload):
     return None, text
 
 
+def check_raw(payload):
+    std = payload["std"]
+    vs = []
+    rd = fp.FortranStringReader(payload["fixed_text"], ignore_comments=True)
+    if not rd.format.is_fixed:
+        vs.append(viol(payload.get("key_detect", "fixed-not-detected"), "detected as %s" % rd.format.mode))
+    else:
+        ref = parse_monitored(payload["free_text"], std, conserve=False)
+        try:
+            tree = fp.create(std)(rd)
+            a, b = shape(ref.tree, FOLD), shape(tree, FOLD)
+            if a != b:
+                vs.append(viol(payload.get("key", "fixed-tree-differs"), first_diff(a, b)))
+        except (fp.FortranSyntaxError, SystemExit) as e:
+            vs.append(viol(payload.get("key", "fixed-rejected"), str(e)[:160]))
+        finally:
+            fp.SYMBOL_TABLES.clear()
+    return {"violations": vs, "digests": [], "monitors": {"fixed_renderings": 1, "detector_cases": 1}, "tally": {}}
+
+
 def check(payload):
+    if payload.get("mode") == "raw":
+        return check_raw(payload)
     P = payload_program(payload)
     std = payload["std"]
     viols, digs = [], []
@@ -144,6 +168,7 @@ def check(payload):
         Q = shrink_program(P, still, budget=80)
         w, qtext = one(Q, std, payload)
         v["shrunk"] = {"source": qtext, "detail": w["detail"] if w else None}
+        v["payload"] = dict(payload, program=Q.to_json())
         viols.append(v)
     return {"violations": viols, "digests": digs, "monitors": mons, "tally": tally,
             "sample": {"mode": payload["mode"], "text": text[:800]}}
